@@ -33,6 +33,10 @@ def operand(kind, k):
     lits = [2, 4, 6, 8, 10, 12, 14, 1]
     if kind == "lit":
         return X.num(lits[k % 8])
+    if kind == "big":
+        return X.num(lits[k % 8])        # replaced by the operand's largest legal value in build_stmt, where one is listed
+    if kind == "zero":
+        return X.num(0)
     if kind == "var":
         return ("bin", "+", ("var", "ABC"[k % 3]), X.num(k)) if k >= 3 else ("var", "ABC"[k % 3])
     if kind == "arr":
@@ -59,7 +63,7 @@ def operand(kind, k):
 
 
 def str_operand(kind, k):
-    if kind in ("lit", "par", "neg", "not", "same", "rnd"):
+    if kind in ("lit", "par", "neg", "not", "same", "rnd", "big", "zero"):
         return ("str", ["U5", "L3", "T2"][k % 3])
     if kind in ("var", "arr"):
         return ("var", "A$" if k % 2 == 0 else "B$")
@@ -101,6 +105,18 @@ def forms():
     return F
 
 
+# the largest value Extended / Super Extended Color BASIC accepts for an operand (constants up to here are part of the
+# language: CLS 9..255 clears the screen and prints the MICROSOFT banner, LOCATE 79,23 is the last cell of the 80-column
+# screen ...).  Operands not listed keep an ordinary constant.
+LEGAL_MAX = {("CLS", "c"): 255, ("LOCATE", "x"): 79, ("LOCATE", "y"): 23, ("ATTR", "f"): 7, ("ATTR", "b"): 7, ("HSCREEN", "n"): 4,
+             ("SOUND", "f"): 255, ("SOUND", "d"): 255, ("PALETTE", "r"): 15, ("PALETTE", "c"): 63, ("HCOLOR", "f"): 15, ("HCOLOR", "b"): 15,
+             ("HCLS", "c"): 15, ("WIDTH", "n"): 80, ("SET", "x"): 63, ("SET", "y"): 31, ("SET", "c"): 8, ("RESET", "x"): 63, ("RESET", "y"): 31,
+             ("HSET", "x"): 639, ("HSET", "y"): 191, ("HSET", "c"): 15, ("HRESET", "x"): 639, ("HRESET", "y"): 191, ("HPRINT", "x"): 79,
+             ("HPRINT", "y"): 23, ("HPAINT", "x"): 639, ("HPAINT", "y"): 191, ("HPAINT", "c"): 15, ("HPAINT", "b"): 15,
+             ("HCIRCLE", "x"): 639, ("HCIRCLE", "y"): 191, ("HCIRCLE", "c"): 15, ("HLINE", "x1"): 639, ("HLINE", "y1"): 191,
+             ("HLINE", "x0"): 639, ("HLINE", "y0"): 191, ("POKE", "v"): 255}
+
+
 def build_stmt(kind_name, req, present, extra, kinds):
     o = dict((k, v) for k, v in extra.items() if k not in ("tkind", "speed", "hex"))
     names = DV.OPERANDS[kind_name]
@@ -115,6 +131,8 @@ def build_stmt(kind_name, req, present, extra, kinds):
                 o[nm] = ("str", long_t) if okind not in ("expr", "tmp") else ("bin", "+", ("str", long_t[:24]), ("str", long_t[24:]))
             elif nm in ("s", "t") and kind_name in ("HDRAW", "PLAY") or (nm == "t" and extra.get("tkind") == "str"):
                 o[nm] = str_operand(okind, k)
+            elif okind == "big" and (kind_name, nm) in LEGAL_MAX:
+                o[nm] = X.num(LEGAL_MAX[(kind_name, nm)])
             else:
                 o[nm] = operand(okind, k)
             k += 1
@@ -334,10 +352,10 @@ def cases(tier, seed):
                     kind_sets = [[KINDS[(n + j) % len(KINDS)] for j in range(7)], ["lit"], [rng.choice(KINDS) for _ in range(7)],
                                  ["tmp", "var", "dev", "expr", "arr", "par", "lit"], ["var"], ["tmp"], ["dev", "tmp"], ["neg"], ["not"],
                                  ["var", "neg", "lit", "not"], ["lit", "lit", "lit", "neg", "not", "neg", "not"], ["same"], ["rnd"],
-                                 ["same", "lit"], ["lit", "rnd"],
+                                 ["same", "lit"], ["lit", "rnd"], ["big"], ["zero"], ["lit", "big"], ["big", "zero", "big"],
                                  [rng.choice(KINDS) for _ in range(7)]]
                 else:
-                    kind_sets = [[k] for k in KINDS] + [["same"], ["rnd"], ["same", "lit"], ["lit", "same"], ["rnd", "lit"], ["lit", "rnd"],
+                    kind_sets = [[k] for k in KINDS] + [["same"], ["rnd"], ["big"], ["zero"], ["lit", "big"], ["big", "lit"], ["big", "zero", "big"], ["same", "lit"], ["lit", "same"], ["rnd", "lit"], ["lit", "rnd"],
                                                         ["same", "rnd"], ["lit", "lit", "same"], ["same", "var", "same"]] + [list(t) for t in itertools.islice(itertools.permutations(KINDS, 7), 0, 181440, 9000)] + \
                                 [[rng.choice(KINDS) for _ in range(7)] for _ in range(6)]
                 if tier == "thorough":
